@@ -358,6 +358,9 @@ func main() {
 	}
 	wSlash = &sim.CaseWriter{OutDir: *outDir, Name: "c04slash", Imports: imp, CaseType: "sl_case", MFun: "sl_mismatches", VFun: fmt.Sprintf("sl_violations_for %d", *prop), PerShard: 25}
 	txMode(r.Fork(), *nStates, *perState, w1, *outDir)
+	if *prop == 0 || *prop == 7 {
+		rejectMode(r.Fork(), 1+*nChains/3, *nBlocks, *outDir)
+	}
 	w1.Close(st)
 	wSlash.Close(st)
 	wFail.Close(st)
